@@ -523,6 +523,19 @@ Definition get_func_in_module (m q : string) : result pyobj :=
   end.
 End Decode.
 
+(* ---------- the relations "same type / same arguments" of the round-trip statements ---------- *)
+Definition opt_corrb (a b : option ty) : bool :=
+  match a, b with
+  | None, None => true
+  | Some x, Some y => corrb x y
+  | _, _ => false                   (* absent and NoneType (or any type) are never confused *)
+  end.
+
+(* argument dicts as finite maps *)
+Definition args_corrb (a b : list (string * ty)) : bool :=
+  Nat.eqb (List.length a) (List.length b)
+  && forallb (fun f => match lookup_f (fst f) b with Some y => corrb (snd f) y | None => false end) a.
+
 (* ================================================================================================
    Call traces
    ================================================================================================ *)
